@@ -3,4 +3,6 @@ EXTENDS GenCookie
 C17Cfgs == { [nsrv |-> 1, tries |-> 4, timeout |-> 1000, seed |-> 1, edns |-> 1, udpmax |-> 1],
              [nsrv |-> 1, tries |-> 4, timeout |-> 1000, seed |-> 2, edns |-> 1, stayopen |-> 1],
              [nsrv |-> 1, tries |-> 4, timeout |-> 1000, seed |-> 3, edns |-> 1, udpmax |-> 1, v6 |-> 1] }
+C17LateCfgs == { [nsrv |-> 1, tries |-> 4, timeout |-> 1000, seed |-> 4, edns |-> 1, udpmax |-> 1],
+                 [nsrv |-> 1, tries |-> 4, timeout |-> 1000, seed |-> 5, edns |-> 1] }
 =============================================================================
